@@ -88,8 +88,11 @@ def dot3(a, b):
 _H = dict(cs_unit=cs_unit, abs_le=abs_le, pad_of=pad_of, dot3=dot3, cs3=cs3, centred=centred, row=row, win0=win0, margin=margin, sample=sample, in_ball=in_ball, sq=sq)
 
 
-@contract("acryo._utils:prepare_affine", props=["C02"])
+# (C10 "however the tomogram is chunked, numpy or dask": the block handed to the interpolation is the tomogram window
+# for every array -- operations that depend on the chunking, e.g. map_blocks, are modelled over an arbitrary chunking)
+@contract("acryo._utils:prepare_affine", props=["C02", "C10"])
 class prepare_affine:
+    only = {"C10": ["ensures.block_is_window", "no_exception"]}
     """C02: voxel k of the subtomogram samples tomogram coordinate center + R (k - (shape-1)/2) (z,y,x order);
     the cropped+padded block is the tomogram window [x0, x1) and every coordinate read for a voxel of the inscribed
     ball lies (with its interpolation stencil) inside that window."""
